@@ -5,7 +5,7 @@
    Histories are arbitrary lists of responses of arbitrarily many sequences
    (sequential interleaving), settings are arbitrary integers. *)
 From Coq Require Import List ZArith Bool Lia.
-From Verif Require Import C17.Model C17.Spec C17.Proofs.
+From Verif Require Import C17.Model C17.Spec C17.Proofs C17.Ident.
 Import ListNotations.
 Open Scope Z_scope.
 
@@ -426,3 +426,71 @@ Example C17_policy_example :
       (snd (trun {| pAttempts := 0; pCooldown := 5; pMult := 2; pRanges := [(500, 599)] |}
                  0 [TResp 1 true 500; TResp 1 false 500])) = [1; 1].
 Proof. vm_compute. split; reflexivity. Qed.
+
+(* ================================================================== *)
+(* WHICH SEQUENCE IS CHARGED (Ident.v)                                 *)
+
+(* POLICY MODE through the dispatcher.  A history is any interleaving of
+   requests answered by the gateway itself ([DEarly id seq status vis]: a
+   request-side remedy produced an early response, the dispatcher builds the
+   OnResponse for the response remedies) and provider responses / cache losses
+   ([DProv]).  The trace carries the ids of the client's REQUEST.  For the
+   dispatcher as it is (the early response keeps the request's sequence id) the
+   history is a history of the general machine on exactly those responses ... *)
+Theorem C17_dispatch_is_policy_run : forall c evs,
+  drun KeySequence c evs = grun c (map (dev_gev KeySequence) evs).
+Proof. exact drun_keyseq. Qed.
+Print Assumptions C17_dispatch_is_policy_run.
+
+(* ... hence at every point of every such history, for every sequence, the
+   retries asked since the request that opened it (ID = SequenceID) are at most
+   max(attempts, 0), gateway-made responses included. *)
+Theorem C17_dispatch_bound : dispatch_bound_keyed_by KeySequence.
+Proof. exact dispatch_bound_keyseq. Qed.
+Print Assumptions C17_dispatch_bound.
+
+(* The variant in which the early response is identified by its transaction
+   (SequenceID := request ID; seeded change C17-9) does NOT satisfy it. *)
+Theorem C17_dispatch_bound_transaction_key_refuted : ~ dispatch_bound_keyed_by KeyTransaction.
+Proof. exact dispatch_bound_keytxn_refuted. Qed.
+Print Assumptions C17_dispatch_bound_transaction_key_refuted.
+
+Example C17_dispatch_example :
+  let c := {| pAttempts := 2; pCooldown := 1; pMult := 2; pRanges := [(429, 429); (500, 599)] |} in
+  let evs := [DEarly 1 1 503 true; DEarly 2 2 429 true; DEarly 11 1 503 true;
+              DProv (GResp 2 false 500 true); DEarly 12 1 503 true; DEarly 21 2 429 true;
+              DEarly 13 1 503 true] in
+  map (fun x => (r_seq x, pout_code (r_out x))) (snd (drun KeySequence c evs))
+    = [(1, 0); (2, 0); (1, 0); (2, 0); (1, 1); (2, 1); (1, 1)] /\
+  map (fun x => (r_seq x, pout_code (r_out x))) (snd (drun KeyTransaction c evs))
+    = [(1, 0); (2, 0); (1, 0); (2, 0); (1, 0); (2, 0); (1, 0)] /\
+  seg_retries 1 (snd (drun KeyTransaction c evs)) = 4.
+Proof. vm_compute. repeat split; reflexivity. Qed.
+
+(* FLOWS MODE through the stream constructor.  Every response carries a body
+   that can or cannot be decoded.  For the constructor as it is (the sequence id
+   is kept on the decode-error path) the body is irrelevant: the run is the run
+   of Model.frun on the same events, so every flows-mode theorem above applies ... *)
+Theorem C17_flow_body_irrelevant : forall att evs,
+  brun KeepSeq att evs = frun att (map fst evs).
+Proof. exact brun_keep. Qed.
+Print Assumptions C17_flow_body_irrelevant.
+
+(* ... in particular the bound per (processor, client sequence), for every
+   interleaving and every assignment of bodies. *)
+Theorem C17_flow_body_bound : flow_body_bound_with KeepSeq.
+Proof. exact flow_body_bound_keep. Qed.
+Print Assumptions C17_flow_body_bound.
+
+(* The variant whose decode-error path returns the response without its
+   sequence id (seeded change C17-10) does NOT satisfy it: all undecodable
+   responses share the counter of the empty id. *)
+Theorem C17_flow_body_bound_dropped_id_refuted : ~ flow_body_bound_with DropSeqOnDecodeError.
+Proof. exact flow_body_bound_drop_refuted. Qed.
+Print Assumptions C17_flow_body_bound_dropped_id_refuted.
+
+Example C17_flow_body_example :
+  map (fun x => fout_code (snd x)) (snd (brun KeepSeq (fun _ => 2) body_witness)) = [0; 0; 0; 1] /\
+  map (fun x => fout_code (snd x)) (snd (brun DropSeqOnDecodeError (fun _ => 2) body_witness)) = [0; 0; 1; 0] /\
+  since_failed (0, 1) (snd (brun DropSeqOnDecodeError (fun _ => 2) body_witness)) = 3.
+Proof. vm_compute. repeat split; reflexivity. Qed.
